@@ -9,4 +9,6 @@ func verifProbe(v *VM) {}
 
 func verifKeepDead() bool { return false }
 
+func verifRunStart(v *VM) {}
+
 func verifOptInput(c *Compiler, node parser.Node) {}
